@@ -237,13 +237,14 @@ def respell(text, rng, kinds=KINDS):
                 with_c = []
                 for k, p in enumerate(parts):
                     if k and rng.random() < 0.3:
-                        with_c.append(rng.choice(('c a comment inside a card', 'C', '  c    another one')))
+                        with_c.append(rng.choice(('c a comment inside a card', 'C', '  c    another one', 'c\ttab after the c',
+                                                  'C\t\ttabs')))
                     if rng.random() < 0.3 and not p.rstrip().endswith('&'):
                         p = p + ' $ ' + rng.choice(('comment', 'imp:n=0 u=99 (ignored)', '1 2 3'))
                     with_c.append(p)
                 parts = with_c
                 if rng.random() < 0.3:
-                    new.append(rng.choice(('c comment between cards', 'C ----', ' c  x')))
+                    new.append(rng.choice(('c comment between cards', 'C ----', ' c  x', 'c\ttabbed comment between cards')))
             new += parts
         out_blocks.append(new)
     head = []
